@@ -10,7 +10,8 @@ ID = 'C03'
 LEVEL = 'exploration'
 RULE = ('handler class forests built with event_handler (positional names, '
         'keyword remappings, both, empty decorations) over single-inheritance '
-        'trees of depth<=4 with undecorated intermediate classes, overriding '
+        'trees of depth<=4 with undecorated intermediate classes (20% of '
+        'the decorated classes get a second handler base from another tree), overriding '
         'mappings and overriding methods; histories of add_handler (incl. '
         'twice), remove_handler (incl. never-added), dispatch(name, *args, '
         '**kwargs) with unique argument tokens, unknown event names, and '
@@ -38,7 +39,10 @@ MIN_STATS = {'deliveries_checked': 5000, 'dispatch_calls_checked': 3000}
 ASSUMPTIONS = [
     "don't-care: a handler whose registration changes DURING a dispatch is "
     'judged "at most once" for that dispatch call; delivery order is not '
-    'judged; multiple inheritance from two decorated bases is not generated',
+    'judged; a second handler base is given only to decorated classes and '
+    'comes from another tree (no common ancestor); an UNDECORATED class with '
+    'several handler bases is not generated (which mapping plain attribute '
+    'lookup shows is not stated)',
 ]
 
 EVENTS = ['e0', 'e1', 'e2', 'e3']
@@ -49,10 +53,23 @@ def gen_one(rng, tier, scale=False):
     ncls = rng.randint(1, 6) if not scale else 25
     classes = []
     defined = []        # method names available per class (incl. inherited)
+    roots = []
     for i in range(ncls):
         base = rng.randrange(i) if i and rng.random() < 0.65 else None
         avail = set() if base is None else set(defined[base])
         decorated = rng.random() < 0.75
+        roots.append({i} if base is None else set(roots[base]))
+        # a decorated class may have a second handler base from another
+        # tree (no common ancestor): it inherits both mappings, the first
+        # base taking precedence, extended and overridden by its own
+        base2 = None
+        if base is not None and decorated and not scale \
+                and rng.random() < 0.2:
+            cands = [j for j in range(i) if not (roots[j] & roots[base])]
+            if cands:
+                base2 = rng.choice(cands)
+                avail |= set(defined[base2])
+                roots[i] |= roots[base2]
         names, maps, methods = [], {}, set()
         if decorated:
             style = rng.random()
@@ -72,8 +89,14 @@ def gen_one(rng, tier, scale=False):
                 methods.add(meth)
         avail |= methods
         defined.append(avail)
+        # value-like handlers: distinct instances that compare (and hash)
+        # equal, also across classes, or that define __eq__ without __hash__
+        eq = None
+        if base is None and rng.random() < 0.3:
+            eq = rng.choice(['equal', 'equal', 'cross', 'unhashable'])
         classes.append({'base': base, 'decorated': decorated, 'names': names,
-                        'maps': maps, 'methods': sorted(methods)})
+                        'maps': maps, 'methods': sorted(methods), 'eq': eq,
+                        'base2': base2})
     nh = rng.randint(1, 8 if big else 5) if not scale else 90
     handlers = [rng.randrange(ncls) for _ in range(nh)]
     scripts = []
@@ -99,7 +122,8 @@ def gen_one(rng, tier, scale=False):
         elif k < 0.95:
             ev = rng.choice(EVENTS) if rng.random() < 0.93 else 'unknown'
             ops.append(['dispatch', ev, rng.randint(0, 3),
-                        rng.sample(['k0', 'k1', 'k2'], rng.randint(0, 2))
+                        rng.sample(['k0', 'k1', 'k2', 'event_name'],
+                                   rng.randint(0, 2))
                         if rng.random() < 0.4 else []])
         else:
             ops.append(['is', rng.randrange(nh)])
@@ -114,6 +138,14 @@ def gen_cases(tier, seed):
     n = 8000 if tier == "quick" else 16 * 8000
     for i in range(n):
         yield gen_one(random.Random(f'C03/{seed}/{tier}/{i}'), tier)
+
+
+def _value_eq(self, other):
+    return getattr(other, '_eqkey', None) == self._eqkey
+
+
+def _value_hash(self):
+    return hash(self._eqkey)
 
 
 class Token:
@@ -156,11 +188,21 @@ def run_case(case):
     for ci, spec in enumerate(case['classes']):
         base = object if spec['base'] is None else classes[spec['base']]
         ns = {meth: make_method(ci, meth) for meth in spec['methods']}
-        cls = type(f'H{ci}', (base,), ns)
+        eq = spec.get('eq')
+        if eq:
+            ns['_eqkey'] = 'shared' if eq == 'cross' else f'k{ci}'
+            ns['__eq__'] = _value_eq
+            ns['__hash__'] = None if eq == 'unhashable' else _value_hash
+            flags.add(f'eq-{eq}')
+        bases = (base,)
         inherited = {} if spec['base'] is None else dict(mapping[spec['base']])
-        base_def = {} if spec['base'] is None else dict(definer[spec['base']])
-        for meth in spec['methods']:
-            base_def[meth] = ci
+        if spec.get('base2') is not None:
+            bases = (base, classes[spec['base2']])
+            inherited = dict(mapping[spec['base2']])
+            inherited.update(mapping[spec['base']])
+            flags.add('two-handler-bases')
+        cls = type(f'H{ci}', bases, ns)
+        base_def = None
         if spec['decorated']:
             cls2 = desper.event_handler(*spec['names'], **spec['maps'])(cls)
             if cls2 is not cls:
@@ -205,7 +247,11 @@ def run_case(case):
         meth = mapping[ci].get(ev)
         if meth is None:
             return None
-        return (definer[ci][meth], meth)
+        # the function Python's attribute lookup finds on the class
+        for k in classes[ci].__mro__:
+            if meth in vars(k):
+                return (classes.index(k), meth)
+        return None
 
     def act(op, inside=False):
         name = op[0]
